@@ -182,6 +182,10 @@ const (
 	crdTree  CrdSet = 1
 	crdTotal CrdSet = 2
 	crdBoth  CrdSet = 4
+	// crdPrev: the tree layout of the forest before the block being undone
+	// (TreeRows(NumLeaves - numAdds) while NumLeaves still counts the block's
+	// additions). It becomes the tree layout once the additions are rolled back.
+	crdPrev CrdSet = 8
 )
 
 func (c CrdSet) String() string {
@@ -194,6 +198,9 @@ func (c CrdSet) String() string {
 	}
 	if c&crdBoth != 0 {
 		xs = append(xs, "tree=total")
+	}
+	if c&crdPrev != 0 {
+		xs = append(xs, "tree-before-the-block")
 	}
 	if len(xs) == 0 {
 		return "unknown"
@@ -897,6 +904,13 @@ func (it *oInterp) analyze(fn *ssa.Function, args []*OV, in *OState, site ssa.In
 		if call, okE, erE := errTestOfCall(b); call != nil {
 			if r := it.refine[call]; r != nil && r.ok != nil && r.err != nil {
 				rf, okSucc, errSucc = r, okE, erE
+				if it.writesGeometry(call) {
+					// the callee's own states predate the caller's view of the change
+					ok2, err2 := r.ok.clone(), r.err.clone()
+					it.geometryChanged(ok2)
+					it.geometryChanged(err2)
+					rf = &oRefine{ok: ok2, err: err2}
+				}
 			}
 		}
 		eqSucc, neSucc := it.rowsTest(fn, b)
@@ -1138,9 +1152,13 @@ func hasSlicesSeen(t types.Type, seen map[types.Type]bool) bool {
 func (it *oInterp) step(fn *ssa.Function, ins ssa.Instruction, env map[ssa.Value]*OV, st *OState, fills map[ssa.Instruction]ssa.Value) {
 	get := func(v ssa.Value) *OV { return it.get(env, v) }
 	it.curEq = st.eq
-	if st.eq != 0 && it.writesGeometry(ins) {
-		st.eq = 0
-		it.curEq = 0
+	if _, isStore := ins.(*ssa.Store); isStore && it.writesGeometry(ins) {
+		it.geometryChanged(st)
+	}
+	if _, isCall := ins.(*ssa.Call); isCall && it.writesGeometry(ins) {
+		// the callee is analysed with the state before the change; the caller
+		// continues with the facts invalidated
+		defer it.geometryChanged(st)
 	}
 	switch x := ins.(type) {
 	case *ssa.Alloc:
@@ -1732,6 +1750,20 @@ func (it *oInterp) call(fn *ssa.Function, site ssa.Instruction, cc *ssa.CallComm
 	return ret
 }
 
+// geometryChanged: NumLeaves / TotalRows were written. The equality of the two
+// layouts established by an earlier test no longer holds, and positions of the
+// forest "before the block" are, after the roll-back of the additions,
+// positions of the current tree layout.
+func (it *oInterp) geometryChanged(st *OState) {
+	st.eq = 0
+	it.curEq = 0
+	for a, c := range st.crd {
+		if c&crdPrev != 0 {
+			st.crd[a] = (c &^ crdPrev) | crdTree
+		}
+	}
+}
+
 // writesGeometry: the instruction stores NumLeaves / TotalRows of a map forest,
 // or calls a function that may (the equality of the two layouts established by
 // an earlier test no longer holds afterwards).
@@ -1742,7 +1774,7 @@ func (it *oInterp) writesGeometry(ins ssa.Instruction) bool {
 			return false
 		}
 		fa, ok := st.Addr.(*ssa.FieldAddr)
-		if !ok || !it.p.localNamed(fa.X.Type(), "MapPollard") {
+		if !ok || (!it.p.localNamed(fa.X.Type(), "MapPollard") && !it.p.localNamed(fa.X.Type(), "Pollard")) {
 			return false
 		}
 		f := fieldName(fa.X.Type(), fa.Field)
@@ -1828,6 +1860,15 @@ func (it *oInterp) rowsKindRec(v ssa.Value, seen map[ssa.Value]bool) CrdSet {
 		}
 	case *ssa.Call:
 		if sc := x.Common().StaticCallee(); sc != nil && it.p.owns(sc) && it.calleeName(sc) == "TreeRows" {
+			if len(x.Common().Args) == 1 {
+				if bo, ok := stripConvert(x.Common().Args[0]).(*ssa.BinOp); ok && bo.Op == token.SUB {
+					if u, ok := stripConvert(bo.X).(*ssa.UnOp); ok && u.Op == token.MUL {
+						if fa, ok := u.X.(*ssa.FieldAddr); ok && fieldName(fa.X.Type(), fa.Field) == "NumLeaves" && it.p.localNamed(fa.X.Type(), "MapPollard") {
+							return crdPrev
+						}
+					}
+				}
+			}
 			return crdTree
 		}
 	case *ssa.Phi:
